@@ -80,6 +80,8 @@ ROT_TOL = 1e-5      # 1 - |cos| between embedding columns of X and R X
 GAP_MIN = 1e-3
 CHAIN_TOL = 1e-6    # recorded pencil vs the routine called by the harness (observed <= 3e-9: OpenMP triplet order)
 COND_MAX = 1e9      # cond(X B X^T) beyond which the public-API spectral comparison is skipped (counted)
+SINGULAR_COND = 1e13  # cond(X B X^T) beyond which the rhs is singular in binary64 for a Cholesky-based solver (non-finite answers not judged)
+PENCIL_TOL = 1e-10  # recorded pencil vs plain-loop reference, norm-wise relative to |X| |M| |X|^T (direct summation: <= 1e-11)
 
 
 # ----------------------------------------------------------------------------- numbers
@@ -163,6 +165,104 @@ def gen_k_case(rng, method, kind):
     return {"kind": "K", "gen": kind, "method": method, "N": N, "D": D,
             "X": [[fs(v) for v in row] for row in X],
             "W": [[r, c, fs(v)] for (r, c, v) in W], "dv": [fs(v) for v in dv]}
+
+
+def _gran(vals):
+    """granularity of a set of dyadic rationals: every value is an integer multiple of the returned power of two"""
+    d = 1
+    for v in vals:
+        d = max(d, Fraction(v).denominator)
+    return Fraction(1, d)
+
+
+def k_exact_ok(c):
+    """is the routine's own arithmetic EXACT in binary64 on this case, whatever the order of its additions?
+    Sufficient condition: every sum the code forms is a sum of terms that are integer multiples of a common power of
+    two g with sum of absolute values M, and M / g < 2^53 (then every partial sum, in any order, with or without fused
+    multiply-add, is a representable number).  NPE / LPP: the terms are dv_s x_is x_js and v (x_ri x_cj + x_ci x_rj)
+    on the features as given; LLTSA (fix F42): the feature sums, the mean (N a power of two) and then the same terms
+    on the CENTRED features x - mean.  An expanded / hoisted formula (sum x x^T - N m m^T) is NOT covered by this
+    bound on purpose: with a large common offset its intermediate sums exceed 2^53 while the centred ones stay small
+    integers, so that it shows as an exact mismatch."""
+    lim = 2 ** 53
+    N, D, m = c["N"], c["D"], c["method"]
+    X = [[sf(v) for v in row] for row in c["X"]]
+    W = [(r, cc, sf(v)) for r, cc, v in c["W"]]
+    if m == "lltsa":
+        if N < 1 or N & (N - 1):
+            return False
+        gx = _gran(v for row in X for v in row)
+        for f in range(D):
+            if sum(abs(v) for v in X[f]) / gx >= lim:
+                return False
+            mu = sum(X[f]) / N
+            if abs(mu) / (gx / N) >= lim:
+                return False
+            X[f] = [v - mu for v in X[f]]
+    gx = _gran(v for row in X for v in row)
+    gw = _gran(v for _, _, v in W)
+    dv = [sf(v) for v in c["dv"]] if m == "lpp" else [Fraction(1)] * N
+    gd = _gran(dv)
+    ax = [[abs(v) for v in row] for row in X]
+    for i in range(D):
+        for j in range(i, D):
+            if sum(abs(dv[t]) * ax[i][t] * ax[j][t] for t in range(N)) / (gd * gx * gx) >= lim:
+                return False
+            if sum(abs(v) * (ax[i][r] * ax[j][cc] + ax[i][cc] * ax[j][r]) for r, cc, v in W) / (gw * gx * gx) >= lim:
+                return False
+    return True
+
+
+def gen_k_offset_case(rng, method, per_feature):
+    """exact case with a large OFFSET relative to the spread (Wave 3): every feature value is offset_f + a with
+    offset_f = +-m 2^p (m in {1, 3, 5}) and a a small integer (LLTSA: multiple of 1/2 as well), offset / spread about
+    1e3 .. 1e12 for LLTSA (which centres the features: p up to 44) and 1e3 .. 1e5 for NPE / LPP (whose tables contain
+    offset^2 themselves: p up to about 18), common to all features or per feature (some features not offset).  The
+    largest p <= the drawn one for which k_exact_ok holds is used, so model and implementation must agree EXACTLY."""
+    if method == "lltsa":
+        N = rng.choice([2, 4, 8, 8, 16, 32])
+        plo, phi = 10, 44
+        sh = rng.choice([0, 0, 1])
+    else:
+        N = rng.choice([2, 3, 4, 5, 7, 8, 12])
+        plo, phi = 10, 20
+        sh = 0
+    D = rng.choice([1, 2, 2, 3, 3, 4, 5])
+    spread = rng.choice([1, 2, 4, 8])
+    base = [[Fraction(rng.randint(-spread, spread), 2 ** sh) for _ in range(N)] for _ in range(D)]
+    if D >= 2 and rng.random() < 0.3:
+        base[1] = [2 * v for v in base[0]]                     # correlated features
+    W = []
+    for _ in range(rng.randint(1, 2 * N + 2)):
+        r, cc = rng.randrange(N), rng.randrange(N)
+        W.append((r, cc, Fraction(rng.randint(-3, 3), 2 ** rng.choice([0, 0, 1]))))
+    wk = rng.choice(["plain", "symmetric", "alignment"])
+    if wk == "symmetric":
+        W = W + [(cc, r, v) for (r, cc, v) in W]
+    if wk == "alignment":
+        W2 = []
+        for (r, cc, v) in W:
+            W2 += [(r, r, v), (cc, cc, v), (r, cc, -v), (cc, r, -v)]
+        W = W2
+    dv = [Fraction(rng.randint(0, 9), 2 ** rng.choice([0, 1])) for _ in range(N)] if method == "lpp" else []
+    p = rng.randint(plo, phi)
+    sg = [rng.choice([1, -1]) * rng.choice([1, 1, 3, 5]) for _ in range(D)]
+    dp = [rng.randint(0, 6) for _ in range(D)]
+    on = [True] * D
+    if per_feature:
+        on = [rng.random() < 0.6 for _ in range(D)]
+        on[rng.randrange(D)] = True
+    while True:
+        off = [Fraction(sg[f] * 2 ** max(p - (dp[f] if per_feature else 0), 0)) if on[f] else Fraction(0)
+               for f in range(D)]
+        X = [[base[f][t] + off[f] for t in range(N)] for f in range(D)]
+        c = {"kind": "K", "gen": "offset-per-feature" if per_feature else "offset-common", "method": method,
+             "N": N, "D": D, "offset_log2": p, "spread": spread,
+             "X": [[fs(v) for v in row] for row in X],
+             "W": [[r, cc, fs(v)] for (r, cc, v) in W], "dv": [fs(v) for v in dv]}
+        if p <= 0 or k_exact_ok(c):
+            return c
+        p -= 1
 
 
 # powers of two by which the stored entries / the degree vector / the features are multiplied (1e-12 ~ 2^-39.9)
@@ -519,9 +619,16 @@ def gen_j_case(rng):
     D = rng.choice([1, 2, 3, 4, 6, 11])
     d = rng.randint(1, D)
     off = [Fraction(rng.choice([0, 0, 7, -12]), 1) for _ in range(D)]
+    big = rng.random() < 0.3
+    if big:
+        # large offset relative to the spread (Wave 3): sums, mean (N = 2^k) and x - mean stay exact in binary64
+        # (offset 2^p, p <= 40: p + 2 + log2 N + 1 < 53), P^T (x - mean) has small terms; a hoisted
+        # P^T x - P^T mean has not
+        pw = rng.randint(20, 40)
+        off = [Fraction(rng.choice([1, -1, 3, 0]) * 2 ** (pw - rng.choice([0, 0, 3, 9]))) for _ in range(D)]
     X = [[Fraction(rng.randint(-8, 8), 2 ** rng.choice([0, 1, 2])) + off[f] for _ in range(N)] for f in range(D)]
     P = [[Fraction(rng.randint(-9, 9), 2 ** rng.choice([0, 1, 3])) for _ in range(d)] for _ in range(D)]
-    return {"kind": "J", "N": N, "D": D, "d": d, "X": [[fs(v) for v in r] for r in X],
+    return {"kind": "J", "gen": "offset" if big else "plain", "N": N, "D": D, "d": d, "X": [[fs(v) for v in r] for r in X],
             "P": [[fs(v) for v in r] for r in P]}
 
 
@@ -799,29 +906,174 @@ def gen_e_lattice_case(rng, tgt, em=0):
             "X": [[hexf(v) for v in row] for row in X]}
 
 
+def gen_e_offset_case(rng, method, ratio, kernel_sees_offset, per_feature):
+    """public-API case with a large OFFSET relative to the spread (Wave 3).  The data of gen_e_case are put on a
+    dyadic grid (2^-16 of their unit) and translated by t, t_f = +-ratio * u_f * std(feature f) rounded to the grid
+    (u_f in 0.5 .. 2; per_feature: only some features are translated), so that x + t is EXACT in binary64: the
+    translated data are exactly the translate.  kernel_sees_offset = False: the kernel and distance callbacks see
+    the untranslated data (a translation-invariant kernel: neighbourhood graph and alignment / weight matrix are held
+    fixed and only the assembly of the pencil sees the offset); True: all three callbacks see x + t.
+    LLTSA is translation invariant (theorem lltsa_translation_invariant): the case is run a second time on the
+    untranslated features ("twin") and projection matrix and embedding must agree up to column sign.  NPE and LPP are
+    not (X X^T, X D X^T move with the origin): they are judged against the reference pencil built from the same
+    translated data, with tolerances relative to its conditioning."""
+    c = gen_e_case(rng, method, False)
+    N, D = c["N"], c["D"]
+    unit = c["scale"]
+    q = unit * 2.0 ** -16
+    X0 = [[round(parse_hex(x) / q) * q for x in row] for row in c["X"]]
+    t = []
+    on = [True] * D
+    if per_feature:
+        on = [rng.random() < 0.5 for _ in range(D)]
+        on[rng.randrange(D)] = True
+    for f in range(D):
+        col = [X0[s_][f] for s_ in range(N)]
+        mu = math.fsum(col) / N
+        sd = math.sqrt(math.fsum((v - mu) ** 2 for v in col) / N)
+        tf = rng.choice([1.0, -1.0]) * ratio * rng.uniform(0.5, 2.0) * sd if on[f] else 0.0
+        t.append(round(tf / q) * q)
+    X = [[X0[s_][f] + t[f] for f in range(D)] for s_ in range(N)]
+    for s_ in range(N):
+        for f in range(D):
+            if Fraction(X[s_][f]) != Fraction(X0[s_][f]) + Fraction(t[f]):
+                raise AssertionError("translation not exact")          # cannot happen: (|x| + |t|) / q < 2^53
+    c["gen"] = "offset-%s/%s" % ("per-feature" if per_feature else "common",
+                                 "all-callbacks" if kernel_sees_offset else "features-only")
+    c["offset"] = ratio
+    c["offset_ratio"] = ratio
+    c["t"] = [hexf(v) for v in t]
+    c["X"] = [[hexf(v) for v in row] for row in X]
+    c["X0"] = [[hexf(v) for v in row] for row in X0]
+    if not kernel_sees_offset:
+        c["XK"] = c["X0"]
+    return c
+
+
 # -log10 of the heat weight of a unit-distance pair, one stratum per case (Eigen's dummy precision is 1e-12)
+E_OFFSET_EXP = (3, 4, 5, 6, 7, 8)      # log10 of offset / spread of the translated public-API cases
 LATTICE_STRATA = ((0.3, 3.0), (3.0, 8.0), (8.0, 11.5), (11.5, 12.5), (12.5, 16.0), (16.0, 22.0), (22.0, 30.0), (30.0, 40.0))
 
 
-def e_line(c, X=None):
-    X = X if X is not None else c["X"]
-    return "E %s %d %d %d %d %s %s %s %d %s" % (c["method"], c["N"], c["D"], c["d"], c["k"], c["width"],
-                                              c["nshift"], c["kshift"], c.get("em", 0),
-                                              " ".join(x for row in X for x in row))
+def e_line(c, X=None, XK=None):
+    """X: what the feature callback sees; XK: what the kernel and distance callbacks see (None: X as well)"""
+    if X is None:
+        X, XK = c["X"], c.get("XK")
+    return "E %s %d %d %d %d %s %s %s %d %d %s%s" % (c["method"], c["N"], c["D"], c["d"], c["k"], c["width"],
+                                                   c["nshift"], c["kshift"], c.get("em", 0), 0 if XK is None else 1,
+                                                   " ".join(x for row in X for x in row),
+                                                   "" if XK is None else " " + " ".join(x for row in XK for x in row))
 
 
 def parse_e(line, N, D, d):
-    t = parse_tagged(line, ("shape", "chain", "P", "mean", "Y", "M", "dv"))
+    t = parse_tagged(line, ("shape", "chain", "P", "mean", "Y", "M", "dv", "recL", "recR"))
     shape = [int(x) for x in t["shape"]]
     if shape != [D, d, N, d]:
         return {"shape": shape}
     out = {"shape": shape, "P": [parse_hex(x) for x in t["P"]], "mean": [parse_hex(x) for x in t["mean"]],
-           "Y": [parse_hex(x) for x in t["Y"]], "Mtok": t["M"], "dvtok": t["dv"]}
+           "Y": [parse_hex(x) for x in t["Y"]], "Mtok": t["M"], "dvtok": t["dv"],
+           "recL": [parse_hex(x) for x in t.get("recL", [])], "recR": [parse_hex(x) for x in t.get("recR", [])]}
     ch = t.get("chain", [])
     if len(ch) == 6:
         out["chain"] = {"calls": int(ch[0]), "d": int(ch[1]), "smallest": int(ch[2]),
                         "dl": parse_hex(ch[3]), "dr": parse_hex(ch[4]), "dp": parse_hex(ch[5])}
     return out
+
+
+def pencil_clause(c, p, t, N, D):
+    """(error, why or None) for the recorded pencil of one public-API run against the plain-loop reference tables;
+    None when nothing was recorded / the reference did not print its tables"""
+    try:
+        L, R = p.get("recL") or [], p.get("recR") or []
+        A2 = [parse_hex(x) for x in t.get("tab2A", [])]
+        B = [parse_hex(x) for x in t.get("tabB", [])]
+        aA = [parse_hex(x) for x in t.get("absA", [])]
+        aB = [parse_hex(x) for x in t.get("absB", [])]
+    except (ValueError, OverflowError):
+        return None
+    if not (len(L) == len(R) == len(A2) == len(B) == len(aA) == len(aB) == D * D):
+        return None
+    if not all(math.isfinite(x) for x in A2 + B + aA + aB):
+        return None
+    nA = math.sqrt(math.fsum(x * x for x in aA))
+    nB = math.sqrt(math.fsum(x * x for x in aB))
+    if not all(math.isfinite(x) for x in L + R):
+        return float("inf"), "the pencil handed to the generalised solver has non-finite entries"
+    eA = math.sqrt(math.fsum((x - y) ** 2 for x, y in zip(L, A2))) / max(nA, 1e-300)
+    eB = math.sqrt(math.fsum((x - y) ** 2 for x, y in zip(R, B))) / max(nB, 1e-300)
+    tolA = tolB = PENCIL_TOL
+    if c["method"] == "lltsa":
+        Xf = [[parse_hex(x) for x in row] for row in c["X"]]
+        rho = 0.0
+        for f in range(D):
+            col = [Xf[s][f] for s in range(N)]
+            mu = math.fsum(col) / N
+            sd = math.sqrt(math.fsum((v - mu) ** 2 for v in col) / N)
+            rho = max(rho, abs(mu) / sd) if sd > 0 else float("inf")
+        if not math.isfinite(rho):
+            return None
+        dmean = N * 2.3e-16 * rho           # rounding of the mean, in spreads
+        tolA += 4 * dmean
+        tolB += 4 * dmean * dmean
+    why = []
+    if not eA <= tolA:
+        why.append("lhs differs from X (M + M^T) X^T%s by %.2e of | |X| (|M| + |M|^T) |X|^T | (allowed %.1e)"
+                   % (" on the centred features" if c["method"] == "lltsa" else "", eA, tolA))
+    if not eB <= tolB:
+        why.append("rhs differs from X B X^T%s by %.2e of | |X| |B| |X|^T | (allowed %.1e)"
+                   % (" (scatter of the centred features)" if c["method"] == "lltsa" else "", eB, tolB))
+    if why:
+        return max(eA, eB), ("the pencil handed to the generalised solver is not the property's within rounding: "
+                             + "; ".join(why))
+    return max(eA, eB), None
+
+
+def twin_compare(c, p, q, ref, spread, N, D, d, stats):
+    """translation pair (LLTSA): the untranslated twin must give the same projection matrix and embedding up to
+    column sign (columns inside a numerically multiple eigenvalue are free).  Returns a list of complaints."""
+    if not all(math.isfinite(x) for x in q["P"] + q["Y"]):
+        return ["tapkee::embed(lltsa) on the untranslated data returns non-finite values"]
+    try:
+        M1 = [parse_hex(x) for x in p["Mtok"]]
+        M2 = [parse_hex(x) for x in q["Mtok"]]
+        nm = math.sqrt(math.fsum(x * x for x in M1))
+        dm = math.sqrt(math.fsum((x - y) ** 2 for x, y in zip(M1, M2)))
+    except (ValueError, OverflowError):
+        nm, dm = 0.0, 1.0
+    if not dm <= 1e-9 * max(nm, 1e-300):
+        # all three callbacks saw the offset: the alignment matrix itself moved (kernel values lose
+        # eps * offset^2: C08's territory), the two runs solve different problems
+        stats["trans_skipped_unstable_M"] += 1
+        return []
+    bad = []
+    P1, P2 = unflat(p["P"], D, d), unflat(q["P"], D, d)
+    Y1, Y2 = unflat(p["Y"], N, d), unflat(q["Y"], N, d)
+    for j in range(d):
+        gaps = []
+        if j > 0:
+            gaps.append(abs(ref[j] - ref[j - 1]))
+        if j + 1 < len(ref):
+            gaps.append(abs(ref[j + 1] - ref[j]))
+        if min(gaps) <= GAP_MIN * spread:
+            stats["trans_skipped_gap"] += 1
+            continue
+        for name, A, B in (("embedding", [r[j] for r in Y1], [r[j] for r in Y2]),
+                           ("projection", [r[j] for r in P1], [r[j] for r in P2])):
+            na = math.sqrt(math.fsum(x * x for x in A))
+            nb = math.sqrt(math.fsum(x * x for x in B))
+            cs = abs(math.fsum(x * y for x, y in zip(A, B))) / max(na * nb, 1e-300)
+            rel = abs(na - nb) / max(na, nb, 1e-300)
+            stats["trans_min_cos"] = min(stats["trans_min_cos"], cs)
+            if not (1 - cs <= ROT_TOL and rel <= 1e-4):
+                bad.append("%s column %d: |cos| = %.6f, norms %.6g vs %.6g" % (name, j, cs, na, nb))
+        stats["trans_cols"] += 1
+    if bad:
+        stats["trans_fail"] += 1
+        return ["translating the feature space (x -> x + t, |t| = %.3g spreads, neighbourhood graph and alignment "
+                "matrix unchanged) changes the result beyond column sign: %s"
+                % (c.get("offset_ratio", 0), "; ".join(bad[:4]))]
+    stats["trans_ok"] += 1
+    return []
 
 
 def eval_e(ctx, exe1, exe2, cases, stats, rng, rotate_every=2):
@@ -833,7 +1085,11 @@ def eval_e(ctx, exe1, exe2, cases, stats, rng, rotate_every=2):
     for i, c in enumerate(cases):
         lines.append(e_line(c))
         owner.append((i, False))
-        if rotate_every and i % rotate_every == 0 and c["D"] >= 2:
+        if c["method"] == "lltsa" and c.get("X0") is not None:
+            # translation pair: the same case on the untranslated features (kernel data: the untranslated ones)
+            lines.append(e_line(c, c["X0"], None))
+            owner.append((i, "twin"))
+        if rotate_every and i % rotate_every == 0 and c["D"] >= 2 and c.get("X0") is None:
             R = c.get("R")
             if R is None:
                 R = random_orthogonal(rng, c["D"])
@@ -846,14 +1102,15 @@ def eval_e(ctx, exe1, exe2, cases, stats, rng, rotate_every=2):
             lines.append(e_line(c, [[hexf(v) for v in row] for row in XR]))
             owner.append((i, True))
     res, info = run_lines(ctx, exe2, lines, timeout=90 + len(lines))
-    base, rot = {}, {}
+    base, rot, twin = {}, {}, {}
     for (i, isrot), line, inf in zip(owner, res, info):
         c = cases[i]
         if inf == SKIPPED:
             continue
         if inf is not None:
             ctx.violation(c, "tapkee::embed(%s) crashed / hung%s: %s"
-                          % (c["method"], " on the rotated data" if isrot else "", str(inf)[:500]))
+                          % (c["method"], " on the untranslated data" if isrot == "twin" else
+                             " on the rotated data" if isrot else "", str(inf)[:500]))
             continue
         if c.get("em", 0) == 2 and line.startswith("E unsupported"):
             # the library states that the Randomized eigensolver does not handle generalised problems
@@ -873,7 +1130,7 @@ def eval_e(ctx, exe1, exe2, cases, stats, rng, rotate_every=2):
             ctx.violation(c, "tapkee::embed(%s): projection matrix / embedding have shape %s, expected [%d, %d, %d, %d]"
                           % (c["method"], p["shape"], c["D"], c["d"], c["N"], c["d"]))
             continue
-        (rot if isrot else base)[i] = p
+        (twin if isrot == "twin" else rot if isrot else base)[i] = p
         # structural chain embed() = construct_* -> generalized_eigendecomposition(SmallestEigenvalues, d) -> project:
         # the dense pencil recorded at the call site inside the method against the routine called by the harness
         ch = p.get("chain")
@@ -903,9 +1160,11 @@ def eval_e(ctx, exe1, exe2, cases, stats, rng, rotate_every=2):
         if c["method"] == "lltsa":
             # fix F42: both sides from the centred features Xc = X J (= the property's X M X^T for every M
             # annihilating constants; X J X^T = Xc Xc^T): hand the centred features to the plain reference
-            Xf = [[parse_hex(x) for x in row] for row in c["X"]]
-            mu = [math.fsum(Xf[s][f] for s in range(N)) / N for f in range(D)]
-            xtok = [hexf(Xf[s][f] - mu[f]) for s in range(N) for f in range(D)]
+            # (centred exactly, in rationals, and rounded once: with an offset of 1e8 spreads a mean rounded to
+            # binary64 would already shift the reference by 1e-8 spreads)
+            Xq = [[Fraction(parse_hex(x)) for x in row] for row in c["X"]]
+            muq = [sum(Xq[s][f] for s in range(N)) / N for f in range(D)]
+            xtok = [hexf(float(Xq[s][f] - muq[f])) for s in range(N) for f in range(D)]
             bkind = 0
         rl.append("R %d %d %d %s %s %d %s %s" % (N, D, d, " ".join(xtok),
                                                 " ".join(p["Mtok"]), bkind, " ".join(dv),
@@ -920,12 +1179,30 @@ def eval_e(ctx, exe1, exe2, cases, stats, rng, rotate_every=2):
             ctx.note("reference arithmetic failed for a case (skipped): %s" % str(inf or line)[:200])
             stats["ref_failed"] += 1
             continue
-        t = parse_tagged(line, ("ref_evals", "rq", "res", "gram", "norms", "condB"))
+        t = parse_tagged(line, ("ref_evals", "rq", "res", "gram", "norms", "condB", "tab2A", "tabB", "absA", "absB"))
         condB = parse_hex(t["condB"][0]) if t.get("condB") else float("inf")
         stats["e_max_condB"] = max(stats["e_max_condB"], condB if math.isfinite(condB) else 1e300)
         why = []
         finite = all(math.isfinite(x) for x in p["P"] + p["Y"] + p["mean"])
-        if not finite:
+        # the pencil embed() handed to the solver (recorded at the call site) against the reference tables
+        # X (M + M^T) X^T, X B X^T built with plain loops from the same features: any direct summation of them is
+        # within a small multiple of N eps of |X| (|M| + |M|^T) |X|^T resp. |X| |B| |X|^T (norm-wise); LLTSA after
+        # fix F42: on the CENTRED features, with the rounding of the mean (<= N eps |mean|) allowed for.  A
+        # hoisted / expanded formula (sum x x^T - N m m^T) has error eps (offset / spread)^2 instead.
+        pen = pencil_clause(c, p, t, N, D)
+        if pen is not None:
+            stats["pencil_judged"] += 1
+            stats["pencil_max_err"] = max(stats["pencil_max_err"], pen[0])
+            if pen[1]:
+                why.append(pen[1])
+        if not finite and not condB <= SINGULAR_COND:
+            # the right-hand side X B X^T is singular in binary64 (NPE / LPP far from the origin: cond ~
+            # (offset / spread)^2): there is no generalised problem to solve; only the pencil clause is judged
+            stats["e_singular_rhs"] += 1
+            finite = None
+        if finite is None:
+            pass
+        elif not finite:
             why.append("non-finite projection matrix / mean / embedding")
         else:
             # embedding = centred samples projected (no conditioning involved: judged for every case)
@@ -948,7 +1225,7 @@ def eval_e(ctx, exe1, exe2, cases, stats, rng, rotate_every=2):
             # rounding of P^T (x - mean): relative to |P| |x| (the offsets cancel in x - mean)
             if not ee <= EMB_TOL * max(yscale, 1e-300):
                 why.append("embedding differs from P^T (x - mean) by %.2e" % ee)
-        spectral = condB <= COND_MAX and finite
+        spectral = condB <= COND_MAX and bool(finite)
         if not condB <= COND_MAX:
             # the generalised problem itself is too ill-conditioned for a tolerance comparison of the spectrum to
             # mean anything (counted); the embedding / mean clauses above are judged all the same
@@ -982,6 +1259,8 @@ def eval_e(ctx, exe1, exe2, cases, stats, rng, rotate_every=2):
             ge = max(abs(gram[a][b] - (1.0 if a == b else 0.0)) for a in range(d) for b in range(d))
             if not ge <= GRAM_TOL * slack:
                 why.append("P^T (X B X^T) P differs from the identity by %.2e" % ge)
+        if spectral and i in twin:
+            why += twin_compare(c, p, twin[i], ref, spread, N, D, d, stats)
         if rs and max(rs) > stats["e_max_res"]:
             stats["e_max_res"] = max(rs)
             stats["e_max_res_case"] = "%s N=%d D=%d d=%d k=%d nshift=%.0e cond=%.1e" % (
@@ -1126,7 +1405,9 @@ def build_all(ctx):
 def new_stats():
     return {"malformed": 0, "spec_ok": 0, "spec_fail": 0, "other_triangle_differs": 0, "g_ok": 0,
             "select_bad": 0, "e_ok": 0, "e_fail": 0, "ref_failed": 0, "rot_ok": 0, "rot_fail": 0,
-            "j_ok": 0, "j_fail": 0, "chain_ok": 0, "chain_bad": 0, "chain_missing": 0, "rot_cols": 0, "rot_skipped_gap": 0, "rot_skipped_unstable_M": 0, "rot_max_M_reldiff": 0.0, "rot_min_cos": 1.0, "e_max_res": 0.0, "e_max_res_case": "", "e_max_condB": 0.0, "e_skipped_illconditioned": 0, "e_ok_structural_only": 0, "e_randomized_refused": 0, "triangle_votes": {}}
+            "j_ok": 0, "j_fail": 0, "chain_ok": 0, "chain_bad": 0, "chain_missing": 0, "rot_cols": 0, "rot_skipped_gap": 0, "rot_skipped_unstable_M": 0, "rot_max_M_reldiff": 0.0, "rot_min_cos": 1.0, "e_max_res": 0.0, "e_max_res_case": "", "e_max_condB": 0.0, "e_skipped_illconditioned": 0, "e_ok_structural_only": 0, "e_randomized_refused": 0, "triangle_votes": {},
+            "pencil_judged": 0, "pencil_max_err": 0.0, "e_singular_rhs": 0, "trans_ok": 0, "trans_fail": 0, "trans_cols": 0,
+            "trans_skipped_gap": 0, "trans_skipped_unstable_M": 0, "trans_min_cos": 1.0}
 
 
 K_KINDS = ("plain", "plain", "correlated", "symmetric", "alignment", "empty", "zero")
@@ -1142,6 +1423,10 @@ def make_cases(rng, nk, ng, ne, big=False):
             kc.append(gen_k_malformed(rng, m))
         for _ in range(max(1, nk // 100)):
             kc.append(gen_k_case(rng, m, "large"))
+        # large offset relative to the spread, common / per feature (Wave 3), each also in other units
+        for i in range(max(12, nk // 8)):
+            kc.append(gen_k_offset_case(rng, m, per_feature=(i % 3 == 2)))
+            kc.append(scale_k_case(rng, kc[-1]))
     gc = [gen_g_case(rng) for _ in range(ng)]
     ec = []
     for m in METHODS:
@@ -1152,6 +1437,16 @@ def make_cases(rng, nk, ng, ne, big=False):
         for _ in range(max(1, ne // 8)):
             for lo, hi in LATTICE_STRATA:
                 ec.append(gen_e_lattice_case(rng, rng.uniform(lo, hi)))
+        # large offset relative to the spread (Wave 3): offset / spread 1e3 .. 1e8, common / per feature; the kernel
+        # sees the untranslated data (every ratio) or the offset as well (ratios <= 1e4); LLTSA with its twin
+        for rnd in range(max(1, ne // 10)):
+            for m in METHODS:
+                for ei, ex in enumerate(E_OFFSET_EXP):
+                    ratio = 10.0 ** (ex + rng.uniform(-0.3, 0.3))
+                    ec.append(gen_e_offset_case(rng, m, ratio, False, per_feature=((ei + rnd) % 3 == 2)))
+                for ex in (3, 4):
+                    ratio = 10.0 ** (ex + rng.uniform(-0.3, 0.3))
+                    ec.append(gen_e_offset_case(rng, m, ratio, True, per_feature=(rnd % 2 == 1)))
         # the other values of eigen_method: not given (library default) and Randomized (must be refused, or right)
         for m in METHODS:
             for em in (1, 2):
@@ -1206,7 +1501,10 @@ def run(ctx):
         hist["K"][key] = hist["K"].get(key, 0) + 1
     hist["G"] = len(gc)
     for c in ec:
-        key = "%s/%s/D=%d/offset=%g" % (c["method"], c.get("gen", "latent"), c["D"], c.get("offset", 0))
+        off = c.get("offset", 0)
+        if c.get("offset_ratio"):
+            off = 10.0 ** round(math.log10(c["offset_ratio"]))
+        key = "%s/%s/D=%d/offset=%g" % (c["method"], c.get("gen", "latent"), c["D"], off)
         hist["E"][key] = hist["E"].get(key, 0) + 1
     distinct = set()
     for c in kc:
@@ -1220,6 +1518,9 @@ def run(ctx):
         if s["kind"] == "E":
             s["X"] = s["X"][:2] + ["... %d rows" % len(c["X"])]
             s.pop("R", None)
+            for kk in ("X0", "XK"):
+                if kk in s:
+                    s[kk] = "... %d rows" % len(c[kk])
         samples.append(s)
     ctx.finish(
         evaluations=n, distinct_nontrivial=len(distinct),
